@@ -100,6 +100,7 @@ def run_check(prop, tier, seed, workdir, args, t0):
     violations = []
     known_hits = {}
     trace_states = 0
+    drift_total = 0
     fam_desc = []
     for fam in plan["families"]:
         extra = list(fam.get("extra", []))
@@ -116,6 +117,13 @@ def run_check(prop, tier, seed, workdir, args, t0):
                                           timeout=fam.get("timeout", 3000), xmx=fam.get("xmx", "6g"),
                                           env_extra=fam.get("env"), cfg=fam.get("cfg"))
         trace_states += st["distinct"]
+        if st["drift"]:
+            # the property holds on these events, but the code no longer follows the machine layer of the spec
+            drift_total += len(st["drift"])
+            ri, ei = st["drift"][0]
+            print("MODEL-DRIFT: property=%s family=%s %d event(s) conform to the property but not to the machine "
+                  "layer of the specification (first: run %s event %d); not an alarm" %
+                  (prop, fam["fam"], len(st["drift"]), json.loads(runs[ri]["hdr"]).get("id"), ei))
         nev = sum(len(r["events"]) for r in runs)
         all_runs += len(runs)
         all_events += nev
@@ -175,6 +183,7 @@ def run_check(prop, tier, seed, workdir, args, t0):
             "bounds": plan.get("bounds", {}),
             "exhaustive": bool(plan.get("exhaustive", False)),
             "known_findings_seen": {k: n for k, (_, n) in known_hits.items()},
+            "machine_layer_drift_events": drift_total,
         }
         if "nontrivial" in obligations:
             coverage["distinct_nontrivial"] = obligations["nontrivial"]
